@@ -41,6 +41,13 @@ def items(tier: str) -> list:
     for g in families.binary_family(1):
         for b in (0, 3, 10):
             out.append((g, b, None))
+    # open-ended repetitions whose declared minimum lies ABOVE the process-wide cap in force while generating (the cap is lowered to 2
+    # after the spec was read): raising is an answer, a tree with fewer iterations than declared is not a derivation
+    from mc.refgrammar import Alt, NT, RefGrammar, Rep, Seq
+    x = NT("<x>")
+    for body in (Rep(x, 3, None), Seq((Lit("["), Rep(x, 4, None), Lit("]"))), Rep(Seq((x, Lit("-"))), 3, None), Seq((Rep(x, 2, None), Rep(x, 3, None)))):
+        for b in (3, 10):
+            out.append((RefGrammar({"<start>": body, "<x>": Alt((Lit("a"), Lit("b")))}), b, None))
     return out
 
 
@@ -60,7 +67,12 @@ def work(item):
 
     def body(ch):
         with random_seam(ch), max_repetitions(2):
-            return spec.grammar.fuzz("<start>", budget)
+            try:
+                return spec.grammar.fuzz("<start>", budget)
+            except ValueError as e:
+                if "empty range" in str(e):
+                    return ("__raised__",)   # declared minimum above the cap: the generator refuses
+                raise
 
     for choices, tree, _ in dfs(body, bound=bound, max_runs=RUN_CAP):
         if choices is None:
@@ -69,6 +81,9 @@ def work(item):
         res["runs"] += 1
         if isinstance(tree, tuple) and tree and tree[0] == "__horizon__":
             res["capped"] = True
+            continue
+        if isinstance(tree, tuple) and tree and tree[0] == "__raised__":
+            res["refused"] = res.get("refused", 0) + 1
             continue
         s = snap(tree)
         if s in seen:
